@@ -12,6 +12,17 @@ for n in names:
 print("paths", e.paths_run, "obligations", len(e.obligations), "undecided", e.undecided, "gen %.2fs"%(time.time()-t0))
 res = discharge(e.obligations, int(10000))
 agg = collections.OrderedDict()
+if "--dump" in sys.argv:
+    import os, re
+    from pyvc.solve import to_smt2
+    os.makedirs("/verif/.scratch/failing", exist_ok=True)
+    for f in os.listdir("/verif/.scratch/failing"): os.unlink("/verif/.scratch/failing/"+f)
+    n=0
+    for k, ob in e.obligations.items():
+        r = res[k]
+        if not ob.expect_sat and r["status"] != "unsat":
+            n+=1
+            open(f"/verif/.scratch/failing/{n:03d}_{re.sub('[^A-Za-z0-9_.-]','_',ob.name.split('.')[-1])}.smt2","w").write(to_smt2(ob))
 for k, ob in e.obligations.items():
     r = res[k]
     ok = (r["status"] == "sat") if ob.expect_sat else (r["status"] == "unsat")
